@@ -58,9 +58,19 @@ type PrecLevel struct {
 	// Nums: explicit token numbers written after the names on the precedence line (`%left MINUS 301 PLUS`),
 	// parallel to Toks, 0 = none
 	Nums []int `json:"nums,omitempty"`
+	// NumTexts: how a number of Nums is spelled when not plain decimal without padding ("0301"), parallel to Toks
+	NumTexts []string `json:"num_texts,omitempty"`
 	// Aliases: a string written after a name (and its number) on the precedence line (`%left PLUS "+" MINUS`),
 	// parallel to Toks, "" = none; as on %token lines it names no symbol
 	Aliases []string `json:"aliases,omitempty"`
+}
+
+// NumText is the spelling of the i-th number of the line.
+func (p PrecLevel) NumText(i int) string {
+	if i < len(p.NumTexts) && p.NumTexts[i] != "" {
+		return p.NumTexts[i]
+	}
+	return fmt.Sprint(p.Nums[i])
 }
 
 type TypeDecl struct {
@@ -209,7 +219,7 @@ func (s *Spec) Render() string {
 		for i, t := range p.Toks {
 			b.WriteString(" " + t)
 			if i < len(p.Nums) && p.Nums[i] != 0 {
-				fmt.Fprintf(&b, " %d", p.Nums[i])
+				b.WriteString(" " + p.NumText(i))
 			}
 			if i < len(p.Aliases) && p.Aliases[i] != "" {
 				b.WriteString(" \"" + p.Aliases[i] + "\"")
